@@ -444,12 +444,12 @@ impl<'a> Ctx<'a> {
     }
 }
 
-/// msg.tails (C10, C02): every tail up to length 3 (thorough: 4) over {MI, MI256, FP ok, FP bad, ordinary}
-/// after 0..2 ordinary attributes; parse + lookups, typed extraction, display, validate
+/// msg.tails (C10, C02): every tail up to length 4 (thorough: 5) over {MI, MI256, FP ok, FP bad, ordinary}
+/// after 0..2 (thorough: 0..3) ordinary attributes; parse + lookups, typed extraction, display, validate
 pub fn gen_tails(c: &mut Ctx, out: &mut Vec<String>) {
-    let tails = all_tails(if c.thorough { 4 } else { 3 }, &['i', 'j', 'f', 'g', 'o']);
+    let tails = all_tails(if c.thorough { 5 } else { 4 }, &['i', 'j', 'f', 'g', 'o']);
     for tail in &tails {
-        for n_ord in 0..3usize {
+        for n_ord in 0..(if c.thorough { 4usize } else { 3usize }) {
             if !c.mine() {
                 continue;
             }
